@@ -1,5 +1,6 @@
 pub mod ast;
 pub mod decimal;
+pub mod facts;
 pub mod gen;
 pub mod runner;
 pub mod tool;
